@@ -179,7 +179,7 @@ theorem lawful (bs : Bytes) : Lawful Model.ReadIo.ops (A bs) pos :=
     and the reader's `position()` counts the machine's index -/
 def LoopOK (bs : Bytes) (result : IoRead → Bytes → Res Bytes IoRead) (res : Res Bytes IoRead) : StrRes → Prop
   | .closed st' j rest => ∃ r', A bs r' rest j false ∧ res = result r' st'.out.reverse
-  | .err c j => ∃ r', res = .err c r' ∧ pos r' = j
+  | .err c j => ∃ r' xs', res = .err c r' ∧ A bs r' xs' j false
 
 theorem isEscape_true (ch : UInt8) :
     Model.Swar.isEscape ch true = (ch == 0x22 || ch == 0x5c || decide (ch < 0x20)) := by
@@ -201,7 +201,7 @@ theorem parseStrLoop_validate (bs : Bytes) (env : Env) (henv : env.tgt = .value)
     | [], hA, _ =>
       obtain ⟨r1, e1, h1⟩ := nextOrEof_nil' hA
       simp only [e1, strRun_nil, LoopOK]
-      exact ⟨r1, rfl, by simpa using pos_eq h1⟩
+      exact ⟨r1, _, rfl, h1⟩
     | ch :: ys, hA, hlen =>
       obtain ⟨r1, e1, h1⟩ := nextOrEof_cons' hA
       simp only [e1, isEscape_true]
@@ -218,21 +218,21 @@ theorem parseStrLoop_validate (bs : Bytes) (env : Env) (henv : env.tgt = .value)
           rw [strRun_backslash env stk st hst]
           obtain ⟨f, rfl⟩ : ∃ f, fuel = f + 1 := ⟨fuel - 1, by omega⟩
           have hag := parseEscape_validate (lawful bs) env stk henv f h1 { st with esc := .bs, escaped := true } rfl
-          rcases hag with ⟨sc, r', xs', k', e2, hA', hl', _, hrun⟩ | ⟨c, r', e2, hrun⟩
+          rcases hag with ⟨sc, r', xs', k', e2, hA', hl', _, hrun⟩ | ⟨c, r', xs', j', e2, hA', hrun⟩
           · simp only at e2
             simp only [e2, hrun]
             have := ih r' xs' k' false { st with out := sc.reverse, esc := .none, escaped := true } hA' rfl (by omega)
             simpa using this
           · simp only at e2
             simp only [e2, hrun, LoopOK]
-            exact ⟨r', rfl, rfl⟩
+            exact ⟨r', _, rfl, hA'⟩
         · have hq' : (ch == 0x22) = false := by simpa using hq
           have hb' : (ch == 0x5c) = false := by simpa using hb
           simp only [hq', hb', Bool.false_or, Bool.false_eq_true, if_false]
           by_cases hc : ch < 0x20
           · simp only [hc, decide_true, Bool.not_true, Bool.false_eq_true, if_false, if_true]
             rw [strRun_ctrl env stk st hst k ch ys hq hb hc]
-            exact ⟨r1, rfl, by simpa using pos_eq h1⟩
+            exact ⟨r1, _, rfl, h1⟩
           · simp only [hc, decide_false, Bool.not_false, if_true]
             rw [strRun_plain env stk st hst k ch ys hq hb hc]
             have := ih r1 ys (k + 1) false { st with out := ch :: st.out } h1 hst (by omega)
@@ -242,7 +242,7 @@ theorem parseStrLoop_validate (bs : Bytes) (env : Env) (henv : env.tgt = .value)
 
 def LoopOKI (bs : Bytes) (res : Res Unit IoRead) : StrRes → Prop
   | .closed _ j rest => ∃ r', A bs r' rest j false ∧ res = .ok () r'
-  | .err c j => ∃ r', res = .err c r' ∧ pos r' = j
+  | .err c j => ∃ r' xs', res = .err c r' ∧ A bs r' xs' j false
 
 theorem ignoreStrLoop_spec (bs : Bytes) (env : Env) (henv : env.tgt = .ignored) (stk : List Frame) :
     ∀ (fuel : Nat) (r : IoRead) (xs : Bytes) (k : Nat) (p : Bool) (st : StrSt), A bs r xs k p → st.esc = .none →
@@ -257,7 +257,7 @@ theorem ignoreStrLoop_spec (bs : Bytes) (env : Env) (henv : env.tgt = .ignored) 
     | [], hA, _ =>
       obtain ⟨r1, e1, h1⟩ := nextOrEof_nil' hA
       simp only [e1, strRun_nil, LoopOKI]
-      exact ⟨r1, rfl, by simpa using pos_eq h1⟩
+      exact ⟨r1, _, rfl, h1⟩
     | ch :: ys, hA, hlen =>
       obtain ⟨r1, e1, h1⟩ := nextOrEof_cons' hA
       simp only [e1, isEscape_true]
@@ -273,18 +273,18 @@ theorem ignoreStrLoop_spec (bs : Bytes) (env : Env) (henv : env.tgt = .ignored) 
           simp only [this, beq_self_eq_true, Bool.true_or, Bool.or_true, Bool.not_true, Bool.false_eq_true, if_false, if_true]
           rw [strRun_backslash env stk st hst]
           have hag := ignoreEscape_spec (lawful bs) env stk henv h1 { st with esc := .bs, escaped := true } rfl
-          rcases hag with ⟨r', xs', k', st', e2, hA', hl', hst', hrun⟩ | ⟨c, r', e2, hrun⟩
+          rcases hag with ⟨r', xs', k', st', e2, hA', hl', hst', hrun⟩ | ⟨c, r', xs', j', e2, hA', hrun⟩
           · simp only [e2, hrun]
             exact ih r' xs' k' false st' hA' hst' (by omega)
           · simp only [e2, hrun, LoopOKI]
-            exact ⟨r', rfl, rfl⟩
+            exact ⟨r', _, rfl, hA'⟩
         · have hq' : (ch == 0x22) = false := by simpa using hq
           have hb' : (ch == 0x5c) = false := by simpa using hb
           simp only [hq', hb', Bool.false_or, Bool.false_eq_true, if_false]
           by_cases hc : ch < 0x20
           · simp only [hc, decide_true, Bool.not_true, Bool.false_eq_true, if_false]
             rw [strRun_ctrl env stk st hst k ch ys hq hb hc]
-            exact ⟨r1, rfl, by simpa using pos_eq h1⟩
+            exact ⟨r1, _, rfl, h1⟩
           · simp only [hc, decide_false, Bool.not_false, if_true]
             rw [strRun_plain env stk st hst k ch ys hq hb hc]
             exact ih r1 ys (k + 1) false { st with out := ch :: st.out } h1 hst (by omega)
